@@ -79,7 +79,13 @@ def gen_cases(rng, tier):
                 orders.append(p)
         qs = gen_queries(rng, feats)
         for o in orders:
-            cases.append({"feats": [feats[j] for j in o], "qs": qs, "text": rng.random() < 0.6})
+            c = {"feats": [feats[j] for j in o], "qs": qs, "text": rng.random() < 0.6}
+            if len(feats) >= 2 and rng.random() < 0.3:
+                # the same lines in two batches: create_db, then FeatureDB.update from a lazy source that itself queries the
+                # database (the db.update(db.create_introns()) idiom); relatives are asked for before and after
+                c["split"] = rng.randrange(1, len(feats))
+                c["text"] = False
+            cases.append(c)
     return cases
 
 
@@ -87,6 +93,11 @@ def valid_case(c):
     try:
         if not c["feats"]:
             return False
+        if "split" in c and not (1 <= c["split"] < len(c["feats"])):
+            return False
+        present = set(f["attrs"][0][1][0] for f in c["feats"] if f["attrs"] and f["attrs"][0][0] == "ID")
+        if any(q.get("as_feature") and q["id"] not in present for q in c["qs"]):
+            return False                      # db[<absent id>] raises before the query is made
         for f in c["feats"]:
             if not f["attrs"] or f["attrs"][0][0] != "ID" or len(f["attrs"][0][1]) != 1 or not f["attrs"][0][1][0]:
                 return False
@@ -116,7 +127,13 @@ def shrinks(c):
             yield dict(c, qs=[q])
         yield dict(c, qs=qs[: len(qs) // 2])
     for i in range(len(feats)):
-        yield dict(c, feats=feats[:i] + feats[i + 1:])
+        c2 = dict(c, feats=feats[:i] + feats[i + 1:])
+        if "split" in c:
+            k = c["split"] - 1 if i < c["split"] else c["split"]
+            if not (1 <= k < len(feats) - 1):
+                continue
+            c2["split"] = k
+        yield c2
     for i, f in enumerate(feats):
         for j, (k, vs) in enumerate(f["attrs"]):
             if k != "ID":
@@ -130,8 +147,53 @@ def shrinks(c):
         yield dict(c, text=False)
 
 
+def two_batches(c):
+    import os, tempfile, warnings
+    import gffutils
+    warnings.simplefilter("ignore")
+    d = tempfile.mkdtemp(prefix="c02", dir="/dev/shm" if os.path.isdir("/dev/shm") else None)
+    objs = [imp.to_feature(x) for x in c["feats"]]
+    ids = [f["attrs"][0][1][0] for f in c["feats"]]
+    k = c["split"]
+    db = gffutils.create_db(objs[:k], os.path.join(d, "t.db"), verbose=False)
+
+    def ask():
+        for i in ids:
+            list(db.children(i))
+            list(db.parents(i))
+
+    def source():
+        for o in objs[k:]:
+            ask()
+            yield o
+    ask()
+    db.update(source(), make_backup=False, verbose=False)
+    return db, d
+
+
 def run_impl(c):
-    st, db = imp.run_create(c["feats"], text=c.get("text", False))
+    tmpd = None
+    if "split" in c:
+        try:
+            db, tmpd = two_batches(c)
+            st = "ok"
+        except Exception as ex:
+            st, db = "err", L.err_class(ex)
+    else:
+        st, db = imp.run_create(c["feats"], text=c.get("text", False))
+    try:
+        return run_queries(c, st, db)
+    finally:
+        if tmpd:
+            import shutil
+            try:
+                db.conn.close()
+            except Exception:
+                pass
+            shutil.rmtree(tmpd, ignore_errors=True)
+
+
+def run_queries(c, st, db):
     if st == "err":
         return {"tables": ["err", db], "qs": []}
     t = imp.dump_tables(db.conn)
@@ -171,6 +233,7 @@ def coq_case(c, o):
 
 def labels(c, o):
     yield "n=%d" % len(c["feats"])
+    yield "route=" + ("create_db+update(reading source)" if "split" in c else "create_db")
     yield "input=" + ("text" if c.get("text") else "features")
     if o["tables"][0] == "ok":
         l2 = sum(1 for r in o["tables"][1]["rels"] if r[2] == 2)
